@@ -333,8 +333,8 @@ def pool_strategy(draw):
         ss = [draw(G.stream(pal, zones, iso_share=0.1, thirds=False)) for _ in range(draw(st.integers(1, 5)))]
         us = draw(G.utilities(pal, 2, 2, 1, thirds=False))
         p = {"streams": ss, "utilities": us}
-        if draw(st.integers(0, 3)) == 0:
-            p["options"] = draw(st.sampled_from([{"DO_VERTICAL_GCC": True}, {"DO_BALANCED_CC": False}, {"DT_CONT": 10.0}, {"DO_AREA_TARGETING": True, "DT_CONT": 5.0}]))
+        if draw(st.integers(0, 2)) == 0:
+            p["options"] = draw(st.sampled_from([{"DO_VERTICAL_GCC": True}, {"DO_BALANCED_CC": False}, {"DT_CONT": 10.0}, {"DO_AREA_TARGETING": True, "DT_CONT": 5.0}, {"REFRIGERANTS": "ammonia"}, {"REFRIGERANTS": "water,R134a", "DT_CONT": 7.5}, {"UTILITY_PRICE": 99.0, "HTC": 2.0}]))
         if all("/" not in z for z in zones) and draw(st.integers(0, 2)) == 0:
             # a user zone tree in its non-canonical spelling (alias types), optionally with a stream labelled with the root name
             alias = draw(st.sampled_from(["Zone", "Process Zone", "Sub-Zone"]))
